@@ -132,17 +132,7 @@ Definition rewrap (old : aval) (x : tval) : aval :=
   | _, _ => old
   end.
 
-(* float64(float32): IEEE widening of the bit pattern (signalling NaNs come out quiet, as the
-   hardware conversion does) *)
-Definition widen32 (b : N) : N :=
-  let s := b / 2^31 in
-  let e := (b / 2^23) mod 256 in
-  let m := b mod 2^23 in
-  if e =? 255 then s * 2^63 + 2047 * 2^52 + (if m =? 0 then 0 else N.lor m (2^22) * 2^29)
-  else if e =? 0 then
-    if m =? 0 then s * 2^63
-    else let k := N.log2 m in s * 2^63 + (k + 874) * 2^52 + (m - 2^k) * 2^(52 - k)
-  else s * 2^63 + (e + 896) * 2^52 + m * 2^29.
+(* widen32 (float64(float32) on bit patterns) is defined in Model/C01.v *)
 
 (* decoding into a non-nil interface{} holding `old` *)
 Definition dec_any_into (fuel : nat) (dep : N) (old : aval) (id : N) : dec aval :=
